@@ -2,7 +2,7 @@
    pds_model is the search the property demands (edge states, (this,next) enqueued). All theorems unbounded except the
    refutation, which is a kernel computation on a 5-node witness. *)
 From Coq Require Import List.
-From PG Require Import Graph.MGraph C17.Model C17.Spec C17.Proofs C17.Refuted C17.Examples.
+From PG Require Import Graph.MGraph C17.Model C17.Spec C17.Proofs C17.Proofs2 C17.Refuted C17.Examples.
 
 (* nx.has_path on the adjacency graph *)
 Theorem conn_spec : conn_spec_stmt.
@@ -61,3 +61,58 @@ Theorem pds_asis_refuted :
   exists g x v, In x (V g) /\ pds_def_path g x None v /\ ~ In v (pds_asis g x None) /\ In v (pds_model g x None).
 Proof. exact C17.Refuted.pds_asis_refuted. Qed.
 Print Assumptions pds_asis_refuted.
+
+(* ---- second batch ---- *)
+(* the simple-path oracle of the check is exact: sound for every input, complete when y (if given) is connected to x *)
+Theorem pds_def_path_dec_sound : pds_def_path_dec_sound_stmt.
+Proof. exact C17.Proofs2.pds_def_path_dec_sound. Qed.
+Print Assumptions pds_def_path_dec_sound.
+
+Theorem pds_def_path_dec_exact : pds_def_path_dec_exact_stmt.
+Proof. exact C17.Proofs2.pds_def_path_dec_exact. Qed.
+Print Assumptions pds_def_path_dec_exact.
+
+(* the two readings of "path" differ: a statement about the two Props only *)
+Theorem pds_walk_path_differ : pds_walk_path_differ_stmt.
+Proof. exact C17.Proofs2.pds_walk_path_differ. Qed.
+Print Assumptions pds_walk_path_differ.
+
+(* end to end: pds_path / pds_t / pds_t_path are never smaller than (definition /\ block /\ lag bound) *)
+Theorem pds_path_never_smaller : pds_path_never_smaller_stmt.
+Proof. exact C17.Proofs2.pds_path_never_smaller. Qed.
+Print Assumptions pds_path_never_smaller.
+
+Theorem pds_t_never_smaller : pds_t_never_smaller_stmt.
+Proof. exact C17.Proofs2.pds_t_never_smaller. Qed.
+Print Assumptions pds_t_never_smaller.
+
+Theorem pds_t_path_never_smaller : pds_t_path_never_smaller_stmt.
+Proof. exact C17.Proofs2.pds_t_path_never_smaller. Qed.
+Print Assumptions pds_t_path_never_smaller.
+
+(* time-series nodes (variable, |lag|) <-> nat, and the lag filter on them *)
+Theorem ts_enc_bijection : ts_enc_bijection_stmt.
+Proof. exact C17.Proofs2.ts_enc_bijection. Qed.
+Print Assumptions ts_enc_bijection.
+
+Theorem pds_t_ts_spec : pds_t_ts_spec_stmt.
+Proof. exact C17.Proofs2.pds_t_ts_spec. Qed.
+Print Assumptions pds_t_ts_spec.
+
+Theorem pds_t_pairs_spec : pds_t_pairs_spec_stmt.
+Proof. exact C17.Proofs2.pds_t_pairs_spec. Qed.
+Print Assumptions pds_t_pairs_spec.
+
+(* /repo's search as it is, characterised exactly: walks whose triples are all tested against x; in closed form the
+   neighbours of x plus one collider step; always inside the walk definition *)
+Theorem pds_asis_spec : pds_asis_spec_stmt.
+Proof. exact C17.Proofs2.pds_asis_spec. Qed.
+Print Assumptions pds_asis_spec.
+
+Theorem pds_asis_depth2 : pds_asis_depth2_stmt.
+Proof. exact C17.Proofs2.pds_asis_depth2. Qed.
+Print Assumptions pds_asis_depth2.
+
+Theorem pds_asis_subset : pds_asis_subset_stmt.
+Proof. exact C17.Proofs2.pds_asis_subset. Qed.
+Print Assumptions pds_asis_subset.
